@@ -158,6 +158,9 @@ def step (l : Line) : Verdict :=
     if kv "marker" l.impl == some "true" then
       .specFail "C13.shell-injection" s!"a build request with architecture {repr (String.ofList ((str l.args "arch").map Char.ofNat))} / format {repr (String.ofList ((str l.args "format").map Char.ofNat))} / service name {repr (String.ofList ((str l.args "svc").map Char.ofNat))} made the teamserver's shell run a command of the operator's text (marker file created)"
     else if (kv "run" l.impl).map (·.startsWith "done") != some true then .bad s!"opbuild: {joinSp l.impl}"
+    else if (kv "compilercalls" l.impl) != some "0" ∧ (kv "pipe" l.impl) != some "main" then
+      -- two listeners whose names differ in case only exist; the request names the first: its pipe is the one compiled in
+      .specFail "C13.config-mismatch" s!"the build request names listener smb1 (pipe main_pipe); the configuration compiled in is for: {(kv "pipe" l.impl).getD "?"}"
     else .ok
   | _ => .bad s!"unknown operation {l.op}"
 
